@@ -5,6 +5,8 @@ package event
 import (
 	"github.com/weaveworks/mesh"
 
+	"github.com/emitter-io/emitter/internal/event/crdt"
+
 	vs "github.com/emitter-io/emitter/internal/verifspec"
 )
 
@@ -12,8 +14,8 @@ import (
 // payloads; decodeSubscription and decodeConnection are called on every one of them (State.Subscriptions, on the
 // gossip goroutine). Safety for ANY key string and value.
 
-//@ verify decodeSubscription props=C09
-//@ loop decodeSubscription 0 inv inv_decodeSubscription modifies=*
+// @ verify decodeSubscription props=C09
+// @ loop decodeSubscription 0 inv inv_decodeSubscription modifies=*
 func inv_decodeSubscription(i int, buffer []byte, e Subscription) bool {
 	return 0 <= i && len(buffer) >= 16 && len(e.Ssid) == (len(buffer)-16)/4
 }
@@ -25,8 +27,8 @@ func inv_decodeSubscription(i int, buffer []byte, e Subscription) bool {
 // Map.Merge turns the argument's set into the delta), and returns the argument - now the delta - or nil when every
 // delta is empty.
 
-//@ assume (github.com/emitter-io/emitter/internal/event/crdt.Map).Merge iface
-//@ assume (github.com/emitter-io/emitter/internal/event/crdt.Map).Count iface post=post_Map_Count
+// @ assume (github.com/emitter-io/emitter/internal/event/crdt.Map).Merge iface
+// @ assume (github.com/emitter-io/emitter/internal/event/crdt.Map).Count iface post=post_Map_Count
 func post_Map_Count(res0 int) bool { return 0 <= res0 && res0 <= 1<<40 }
 
 func pre_State_Merge(st *State, other mesh.GossipData) bool {
@@ -39,8 +41,8 @@ func pre_State_Merge(st *State, other mesh.GossipData) bool {
 
 // the delta contract: nil exactly when no set reports anything new; otherwise the argument itself (explored for
 // states of up to three sets - there are exactly three: subscriptions, bans, connections; stated bounded)
-//@ verify (*State).Merge pre=pre_State_Merge post=post_State_Merge_delta props=C13
-//@ loop (*State).Merge 0 unroll 3 bounded
+// @ verify (*State).Merge pre=pre_State_Merge post=post_State_Merge_delta props=C13
+// @ loop (*State).Merge 0 unroll 3 bounded
 func post_State_Merge_delta(st *State, other mesh.GossipData, res0 mesh.GossipData) bool {
 	n := vs.TraceCount("Map).Count")
 	sum := 0
@@ -61,8 +63,120 @@ func post_State_Merge_delta(st *State, other mesh.GossipData, res0 mesh.GossipDa
 // The only object that holds both after State.Merge is the receiver; State.Merge returns the argument's delta (or
 // nil). So a queued payload A followed by B leaves B's delta pending and A is never sent on that link; if B
 // brought nothing new the pending payload becomes nil. Isolated here: known finding (C13, also behind C05).
-//@ verify (*State).Merge as=coalescing pre=pre_State_Merge post=post_State_Merge_union props=C13
-//@ loop (*State).Merge 0 unroll 3 bounded for=coalescing
+// @ verify (*State).Merge as=coalescing pre=pre_State_Merge post=post_State_Merge_union props=C13
+// @ loop (*State).Merge 0 unroll 3 bounded for=coalescing
 func post_State_Merge_union(st *State, other mesh.GossipData, res0 mesh.GossipData) bool {
 	return res0 == mesh.GossipData(st)
 }
+
+// ---------------------------------------------------------------------------------------------------------
+// State.Add / Del / Has (C04, C14): an event goes to the set of ITS type - subscriptions, bans and connections
+// never mix - under its own key, with its own value; Has asks that same set for that same key. The sets are
+// crdt.Map values (Volatile / Durable: their contracts are in internal/event/crdt): recorded calls here.
+//@ assume (github.com/emitter-io/emitter/internal/event/crdt.Map).Add iface
+//@ assume (github.com/emitter-io/emitter/internal/event/crdt.Map).Del iface
+//@ assume (github.com/emitter-io/emitter/internal/event/crdt.Map).Has iface
+//@ assume (Event).Val iface
+
+func pre_State_op(st *State, ev Event) bool {
+	return st != nil && ev != nil && st.subsets != nil && vs.Has(st.subsets, ev.unitType()) && st.subsets[ev.unitType()] != nil
+}
+
+// @ verify (*State).Add pre=pre_State_op post=post_State_Add props=C04,C14
+func post_State_Add(st *State, ev Event) bool {
+	a, v := vs.TraceFind("Map).Add"), vs.TraceFind("Event).Val")
+	return a >= 0 && v >= 0 && v < a && vs.TraceCount("Map).Add") == 1 && vs.TraceCount("Map).Del") == 0 &&
+		vs.TraceArg[crdt.Map](a, 0) == st.subsets[ev.unitType()] && vs.TraceArg[string](a, 1) == ev.Key() &&
+		vs.SameBytes(vs.TraceArg[[]byte](a, 2), vs.TraceRet[[]byte](v, 0))
+}
+
+// @ verify (*State).Del pre=pre_State_op post=post_State_Del props=C04,C14
+func post_State_Del(st *State, ev Event) bool {
+	d := vs.TraceFind("Map).Del")
+	return d >= 0 && vs.TraceCount("Map).Del") == 1 && vs.TraceCount("Map).Add") == 0 &&
+		vs.TraceArg[crdt.Map](d, 0) == st.subsets[ev.unitType()] && vs.TraceArg[string](d, 1) == ev.Key()
+}
+
+// @ verify (*State).Has pre=pre_State_op post=post_State_Has props=C04,C14
+func post_State_Has(st *State, ev Event, res0 bool) bool {
+	h := vs.TraceFind("Map).Has")
+	return h >= 0 && vs.TraceLen() == 1 && vs.TraceArg[crdt.Map](h, 0) == st.subsets[ev.unitType()] &&
+		vs.TraceArg[string](h, 1) == ev.Key() && res0 == vs.TraceRet[bool](h, 0)
+}
+
+// ---------------------------------------------------------------------------------------------------------
+// Event keys (C04: "... or through how many encode/decode hops the updates arrived"): the key of a replicated
+// subscription is peer (8 bytes, big endian), connection id (8), then the ssid words (4 each); decodeSubscription
+// reads exactly that layout back, for any number of words (loop invariants, unbounded); a ban's key is the banned
+// key text itself; the three event kinds go to three different sets.
+// binary.ToString / ToBytes are the unsafe zero-copy casts: modelled as copies with equal bytes (assumed).
+// @ assume github.com/kelindar/binary.ToString iface post=post_binary_ToString
+func post_binary_ToString(b *[]byte, res0 string) bool {
+	return b != nil && len(res0) == len(*b) && vs.Forall(0, len(res0), func(i int) bool { return res0[i] == (*b)[i] })
+}
+
+// @ assume github.com/kelindar/binary.ToBytes iface post=post_binary_ToBytes fresh
+func post_binary_ToBytes(v string, res0 []byte) bool {
+	return len(res0) == len(v) && vs.Forall(0, len(v), func(i int) bool { return res0[i] == v[i] })
+}
+
+func specKeyBE64(k string, at int) uint64 {
+	return uint64(k[at])<<56 | uint64(k[at+1])<<48 | uint64(k[at+2])<<40 | uint64(k[at+3])<<32 |
+		uint64(k[at+4])<<24 | uint64(k[at+5])<<16 | uint64(k[at+6])<<8 | uint64(k[at+7])
+}
+func specKeyBE32(k string, at int) uint32 {
+	return uint32(k[at])<<24 | uint32(k[at+1])<<16 | uint32(k[at+2])<<8 | uint32(k[at+3])
+}
+func specBufBE32(b []byte, at int) uint32 {
+	return uint32(b[at])<<24 | uint32(b[at+1])<<16 | uint32(b[at+2])<<8 | uint32(b[at+3])
+}
+
+// @ verify (*Subscription).Key pre=pre_Subscription_Key post=post_Subscription_Key_head,post_Subscription_Key_words props=C04 qinst
+// @ loop (*Subscription).Key 0 inv inv_Subscription_Key modifies=buffer
+func pre_Subscription_Key(e *Subscription) bool { return e != nil && len(e.Ssid) <= 1<<20 }
+func inv_Subscription_Key(e *Subscription, i int, buffer []byte) bool {
+	return 0 <= i && i <= len(e.Ssid) && len(buffer) == 16+4*len(e.Ssid) &&
+		uint64(specBufBE32(buffer, 0))<<32|uint64(specBufBE32(buffer, 4)) == e.Peer &&
+		uint64(specBufBE32(buffer, 8))<<32|uint64(specBufBE32(buffer, 12)) == uint64(e.Conn) &&
+		vs.Forall(0, i, func(j int) bool { return specBufBE32(buffer, 16+4*j) == e.Ssid[j] })
+}
+func post_Subscription_Key_head(e *Subscription, res0 string) bool {
+	return len(res0) == 16+4*len(e.Ssid) && specKeyBE64(res0, 0) == e.Peer && specKeyBE64(res0, 8) == uint64(e.Conn)
+}
+func post_Subscription_Key_words(e *Subscription, res0 string) bool {
+	return vs.Forall(0, len(e.Ssid), func(j int) bool { return specKeyBE32(res0, 16+4*j) == e.Ssid[j] })
+}
+
+// @ verify decodeSubscription as=layout pre=pre_decodeSubscription_layout post=post_decodeSubscription_head,post_decodeSubscription_words props=C04 qinst
+// @ loop decodeSubscription 0 inv inv_decodeSubscription,inv_decodeSubscription_words modifies=* for=layout
+// @ assume github.com/kelindar/binary.Unmarshal iface for=layout
+func pre_decodeSubscription_layout(k string) bool { return len(k) <= 1<<24 }
+func inv_decodeSubscription_words(i int, buffer []byte, e Subscription) bool {
+	return i <= len(e.Ssid) && vs.Forall(0, i, func(j int) bool { return e.Ssid[j] == specBufBE32(buffer, 16+4*j) })
+}
+func post_decodeSubscription_head(k string, res0 Subscription, res1 error) bool {
+	if len(k) < 16 {
+		return res1 == errInvalidKey
+	}
+	return res0.Peer == specKeyBE64(k, 0) && uint64(res0.Conn) == specKeyBE64(k, 8) && len(res0.Ssid) == (len(k)-16)/4
+}
+func post_decodeSubscription_words(k string, res0 Subscription, res1 error) bool {
+	if len(k) < 16 {
+		return true
+	}
+	return vs.Forall(0, len(res0.Ssid), func(j int) bool { return res0.Ssid[j] == specKeyBE32(k, 16+4*j) })
+}
+
+// @ verify (*Subscription).unitType post=post_unitType_sub props=C04
+func post_unitType_sub(res0 uint8) bool { return res0 == typeSub }
+
+// @ verify (*Ban).unitType post=post_unitType_ban props=C04,C14
+func post_unitType_ban(res0 uint8) bool {
+	return res0 == typeBan && typeBan != typeSub && typeBan != typeConn
+}
+
+// @ verify (*Connection).unitType post=post_unitType_conn props=C04
+func post_unitType_conn(res0 uint8) bool { return res0 == typeConn && typeConn != typeSub }
+
+// @ verify (Ban).Key post=post_Ban_Key props=C04,C14
+func post_Ban_Key(e Ban, res0 string) bool { return res0 == string(e) }
